@@ -3,6 +3,7 @@ package checks
 import (
 	"bytes"
 	"fmt"
+	"github.com/dtn7/dtn7-go/pkg/bpv7"
 	"sort"
 	"strings"
 
@@ -37,6 +38,11 @@ func c14Def() nhCheckDef {
 		bs[i].Spec.Dst = "dtn://dest2/x"
 		bs[i].Dest = "dest2"
 	}
+	// two anonymous bundles (source dtn:none) with the same creation time and different report-to endpoints
+	for k, rpt := range []string{"dtn://node/app", "dtn://collector/r"} {
+		s := gen.Spec{Dst: "dtn://dest/x", Src: "dtn:none", Rpt: rpt, PCRC: 2, Lifetime: 3600000, PayLen: 6, PaySeed: byte(100 + 10*k), Flags: 4}
+		bs = append(bs, nhBundle{Spec: s, Local: true, Dest: "dest"})
+	}
 	bs[1].Spec.Seq = 1 // an application may preset a sequence number; it must not clash with assigned ones
 	var scs []nhScenario
 	for _, a := range []string{"epidemic", "spray"} {
@@ -47,7 +53,7 @@ func c14Def() nhCheckDef {
 
 func c14Alphabet() []nhEvent {
 	return []nhEvent{
-		{Op: "submit", B: 0}, {Op: "submit", B: 1}, {Op: "agent", B: 2}, {Op: "submit", B: 3}, {Op: "agent", B: 4}, {Op: "submit", B: 7}, {Op: "submit", B: 8}, {Op: "up", P: "dest2"},
+		{Op: "submit", B: 0}, {Op: "submit", B: 1}, {Op: "agent", B: 2}, {Op: "submit", B: 3}, {Op: "agent", B: 4}, {Op: "submit", B: 7}, {Op: "submit", B: 8}, {Op: "up", P: "dest2"}, {Op: "submit", B: 9}, {Op: "submit", B: 10},
 		{Op: "receive", B: 5, P: "r1", Q: "r1"}, {Op: "receive", B: 6, P: "r1", Q: "r1"},
 		{Op: "up", P: "dest"}, {Op: "up", P: "r2"}, {Op: "up", P: "collector"}, {Op: "fail", P: "dest"}, {Op: "fail", P: "r2"}, {Op: "ok", P: "r2"},
 		{Op: "retry"}, {Op: "restart1s"},
@@ -70,7 +76,7 @@ func c14Oracle(r *nhRun) (string, string) {
 		if err != nil {
 			return "undecodable-send", err.Error()
 		}
-		if rb.P.Src.NodeName() != "node" {
+		if rb.P.Src.NodeName() != "node" && rb.P.Src.String() != "dtn:none" {
 			continue
 		}
 		id := rb.ID()
@@ -129,7 +135,7 @@ func c14Oracle(r *nhRun) (string, string) {
 		if lerr != nil {
 			return "stored-bundle-unreadable", lerr.Error()
 		}
-		if b.PrimaryBlock.SourceNode.Authority() != "node" || b.IsAdministrativeRecord() {
+		if (b.PrimaryBlock.SourceNode.Authority() != "node" && b.PrimaryBlock.SourceNode != bpv7.DtnNone()) || b.IsAdministrativeRecord() {
 			continue
 		}
 		pl := fmt.Sprintf("%x", payloadOf(&b))
@@ -202,6 +208,8 @@ func runC14(r *ev.Run, thorough bool) int {
 		plans = append(plans, nhPlan{Scenario: si, Alphabet: c14Alphabet(), Depth: depth, Budget: budget})
 		plans = append(plans, nhPlan{Scenario: si, Root: []nhEvent{{Op: "up", P: "r2"}, {Op: "fail", P: "r2"}, {Op: "up", P: "collector"}}, Alphabet: c14Alphabet(), Depth: depth, Budget: budget})
 		plans = append(plans, nhPlan{Scenario: si, Root: []nhEvent{{Op: "up", P: "dest"}}, Alphabet: c14Alphabet(), Depth: depth, Budget: budget})
+		// two clock-less bundles are on file, the one with the lower number is delivered and purged, the node restarts
+		plans = append(plans, nhPlan{Scenario: si, Root: []nhEvent{{Op: "submit", B: 7}, {Op: "submit", B: 3}, {Op: "up", P: "dest2"}, {Op: "restart1s"}}, Alphabet: c14Alphabet(), Depth: depth - 1, Budget: budget})
 		// two clock-less bundles of one source wait in the store across a restart
 		plans = append(plans, nhPlan{Scenario: si, Root: []nhEvent{{Op: "submit", B: 3}, {Op: "agent", B: 4}, {Op: "restart1s"}}, Alphabet: c14Alphabet(), Depth: depth - 1, Budget: budget})
 		// a clock-less bundle waits in the store, the node restarts, another destination connects: later clock-less
